@@ -239,6 +239,8 @@ def check(P, R):
     check_get_cookie(P, R)
     R.rule('C15.f', 'a response copy owns its cookie morsels', floor=1)
     check_copy_owns_cookies(P, R)
+    check_cookie_memo_invalidation(P, R, 'C15.e')
+    check_cookie_transfer(P, R, 'C15.f')
 
 
 def check_copy_owns_cookies(P, R):
@@ -317,6 +319,37 @@ def check_compare(P, R, dec, call):
              target.node in list(_parents_until(r))]
     R.ob('C15.c', target, target.node, not early, text='no return inside the element loop', detail='' if not early else
          'early exit at the first differing byte leaks the matching prefix length through timing')
+    # what is accumulated per position is zero exactly when the two bytes are equal and never negative (differences of opposite sign must not cancel)
+    for sc in [x for x in ast.walk(target.node) if isinstance(x, ast.Call) and dotted(x.func) == 'sum' and x.args and isinstance(x.args[0], (ast.GeneratorExp, ast.ListComp))]:
+        elt = sc.args[0].elt
+        tg = sc.args[0].generators[0].target
+        nm = [e.id for e in tg.elts] if isinstance(tg, ast.Tuple) and all(isinstance(e, ast.Name) for e in tg.elts) else []
+
+        def indicator(e):
+            if isinstance(e, ast.IfExp) and compare_parts(e.test) and compare_parts(e.test)[1] in (ast.Eq, ast.NotEq) and \
+                    isinstance(e.body, ast.Constant) and isinstance(e.orelse, ast.Constant):
+                eq = compare_parts(e.test)[1] is ast.Eq
+                zero, one = (e.body.value, e.orelse.value) if eq else (e.orelse.value, e.body.value)
+                return zero == 0 and isinstance(one, int) and one > 0
+            if compare_parts(e) and compare_parts(e)[1] is ast.NotEq:
+                return True
+            if isinstance(e, ast.BinOp) and isinstance(e.op, ast.BitXor):
+                return True
+            if isinstance(e, ast.Call) and dotted(e.func) == 'abs':
+                return True
+            if isinstance(e, ast.BinOp) and isinstance(e.op, ast.Pow) and is_const(e.right, 2):
+                return True
+            if isinstance(e, ast.Call) and dotted(e.func) == 'int' and len(e.args) == 1:
+                return indicator(e.args[0])
+            return None if not (isinstance(e, ast.BinOp) and isinstance(e.op, (ast.Sub, ast.Add))) else False
+        v_ = indicator(elt)
+        if v_ is None:
+            R.undecided('C15.c', target, sc, 'signature comparison', f'the per-position term `{short(elt)}` has no recogniser')
+            continue
+        R.ob('C15.c', target, sc, v_, text=f'per-position term `{short(elt)}` is 0 for equal bytes and positive otherwise', detail='' if v_ else
+             f'`{short(sc)}` adds up signed differences: they cancel, so the test is "same length and same byte sum" - a signature with two bytes transposed verifies, and a '
+             f'forger can find a 24-character signature with the right sum by trying one candidate per achievable sum',
+             why='a signed cookie altered in any byte of the signature reads as absent', key_extra='cmp-term')
     # the comparison must look at every position: generator/loop over zip(a, b) feeding sum/any-free accumulation
     uses_zip = any(isinstance(x, ast.Call) and dotted(x.func) == 'zip' and {src(y) for y in x.args} == {a, b} for x in ast.walk(target.node))
     R.ob('C15.c', target, target.node, uses_zip, text='element-wise over zip(a, b)', detail='' if uses_zip else 'comparison does not pair the elements of both operands')
@@ -476,3 +509,58 @@ def check_get_cookie(P, R):
         ok = isinstance(a0, ast.Tuple) and len(a0.elts) == 2 and src(a0.elts[0]) == sc.params[1] and src(a0.elts[1]) == sc.params[2] \
             and isinstance(a1, ast.Name) and a1.id == 'secret'
         R.ob('C15.e', sc, c, ok, detail='' if ok else 'set_cookie does not sign the (name, value) pair with the given secret')
+
+
+def check_cookie_memo_invalidation(P, R, rid, why='a cookie is read back from the request that returns it: the parsed jar follows the Cookie header of the request'):
+    """request.cookies is memoised in the environ; the memo is dropped whenever an HTTP_* key is written through the request: every store made by
+    `__setitem__` is followed by the change event, and the listener maps header keys to the `cookies` memo"""
+    si = P.func('ombott.request_pkg.request:BaseRequest.__setitem__')
+    g, rd = si.cfg, si.rd
+    stores = [n for n in g.nodes if n.kind == 'stmt' and isinstance(n.ast, ast.Assign) and any(isinstance(t, ast.Subscript) and src(t.slice) == si.params[1] for t in n.ast.targets)]
+    emits = [g.node_of_stmt(c)[0] for c in walk_shallow(si.node) if isinstance(c, ast.Call) and call_attr(c) == 'emit' and c.args and is_const(c.args[0], 'env_changed')]
+    R.require(stores, 'BaseRequest.__setitem__: store into the environ not found')
+    for n in stores:
+        ok = bool(emits) and all(m_ in emits or g.must_pass(m_, g.exit, emits) for (m_, lab_) in n.succ if lab_ != 'exc')
+        R.ob(rid, si, n.ast, ok, text=f'`{short(n.ast)}` is always followed by emit("env_changed", ..)', detail='' if ok else
+             f'after `{short(n.ast)}` the change event is not emitted on every path (e.g. only for keys that were already present): values derived earlier from the '
+             f'environ - the parsed cookie jar, the headers - stay cached, so a Cookie header written through the request is not what get_cookie() reads',
+             why=why, key_extra='emit-after-store')
+    oc = P.func('ombott.request_pkg.request:BaseRequest._on_env_changed')
+    ok = False
+    for t in [n for n in oc.cfg.nodes if n.kind == 'test' and n.ast is not None]:
+        if any(isinstance(c, ast.Call) and call_attr(c) == 'startswith' and c.args and is_const(c.args[0], 'HTTP_') for c in ast.walk(t.ast)):
+            for m_ in T.succ_by_label(t, 'true'):
+                if m_.kind == 'stmt' and m_.ast is not None and any(isinstance(x, ast.Constant) and x.value == 'cookies' for x in ast.walk(m_.ast)):
+                    ok = True
+    R.ob(rid, oc, oc.node, ok, text='a changed HTTP_* key drops the `cookies` memo', detail='' if ok else
+         'the change listener does not drop the cached cookie jar when a header key changes', why=why, key_extra='listener-cookies')
+
+
+def check_cookie_transfer(P, R, rid):
+    """apply() moves the cookies of a returned / raised response onto the live one.  Emptying the live jar and refilling it from the source is only right
+    while the two are different objects: it must not be combined with code that hands one response's jar to another by reference."""
+    ap = P.func('ombott.response:HTTPResponse.apply')
+    rp = ap.params[1]
+    clears = [c for c in walk_shallow(ap.node) if isinstance(c, ast.Call) and call_attr(c) == 'clear' and (dotted(c.func.value) or '') == f'{rp}._cookies']
+    refills = [c for c in walk_shallow(ap.node) if isinstance(c, ast.Call) and call_attr(c) in ('update', 'load') and (dotted(c.func.value) or '') == f'{rp}._cookies'
+               and c.args and 'self._cookies' in src(c.args[0])]
+    guarded = any(n.kind == 'test' and n.ast is not None and any(isinstance(x, ast.Compare) and isinstance(x.ops[0], (ast.Is, ast.IsNot)) and '_cookies' in src(x.left) and '_cookies' in src(x.comparators[0]) for x in ast.walk(n.ast))
+                  for n in ap.cfg.nodes)
+    in_place = bool(clears) and bool(refills) and not guarded
+    sharers = []
+    for fx in P.all_funcs():
+        if fx is ap or not fx.fq.startswith('ombott.') or isinstance(fx.node, ast.Lambda):
+            continue
+        for st in walk_shallow(fx.node):
+            if isinstance(st, ast.Assign) and isinstance(st.value, ast.Attribute) and st.value.attr == '_cookies':
+                for t in st.targets:
+                    if isinstance(t, ast.Attribute) and t.attr == '_cookies' and src(t.value) != src(st.value.value):
+                        sharers.append((fx, st))
+    if in_place:
+        for (fx, st) in sharers:
+            R.ob(rid, fx, st, False, text=f'`{short(st)}` while apply() refills the live jar in place', detail=
+                 f'`{short(st)}` makes two response objects share one cookie jar, and HTTPResponse.apply() empties the live response\'s jar before copying the source\'s '
+                 f'cookies into it: when both are that one jar (redirect() after set_cookie) it is emptied and nothing is copied - the cookies set before the redirect '
+                 f'are never sent', why='a cookie set on a response is read back from the request that returns it', key_extra='jar-shared-and-cleared')
+    R.ob(rid, ap, clears[0] if clears else ap.node, not (in_place and sharers), text=f'cookie transfer in apply(): {"in place (clear + refill)" if in_place else "by reference / guarded"}; '
+         f'{len(sharers)} other site(s) share a jar between responses', nontrivial=False, key_extra='transfer-summary')
